@@ -256,7 +256,17 @@ DtCanon(t, v) ==
     LET n == NormOp(v, IF v.tz = NoTz THEN 0 ELSE v.tz)
         tm == P2(n[4]) \o <<":">> \o P2(n[5]) \o <<":">> \o P2(n[6]) \o (IF n[7] = <<>> THEN <<>> ELSE <<".">> \o n[7])
         z == IF v.tz = NoTz THEN <<>> ELSE <<"Z">>
-    IN IF t = "dateTime" THEN YearStr(n[1]) \o <<"-">> \o P2(n[2]) \o <<"-">> \o P2(n[3]) \o <<"T">> \o tm \o z
+        \* date (3.2.9.2, E2-41): the date of the UTC start instant with the "recoverable" time zone in -11:59 .. +12:00
+        ymd(k) == YearStr(k[1]) \o <<"-">> \o P2(k[2]) \o <<"-">> \o P2(k[3])
+        back == n[4] * 60 + n[5]                 \* minutes after 00:00Z of the start instant
+        nx == NormOp(v, v.tz - 1440)             \* the same instant one day later: its UTC date is the next day
+        fwd == 1440 - back
+    IN IF t = "dateTime" THEN ymd(n) \o <<"T">> \o tm \o z
+       ELSE IF t = "date" THEN
+            (IF v.tz = NoTz THEN ymd(n)
+             ELSE IF back = 0 THEN ymd(n) \o <<"Z">>
+             ELSE IF back < 720 THEN ymd(n) \o <<"-">> \o P2(back \div 60) \o <<":">> \o P2(back % 60)
+             ELSE ymd(nx) \o <<"+">> \o P2(fwd \div 60) \o <<":">> \o P2(fwd % 60))
        ELSE tm \o z     \* time
 
 \* --- duration: -?P(nY)?(nM)?(nD)?(T(nH)?(nM)?(n(.n)?S)?)? , value = (months, seconds with fraction), sign
@@ -519,7 +529,7 @@ SameValue(ty, a, b) ==
                           IN ix[2] = iy[2] /\ ix[3] = iy[3] /\ (x.t.tz = NoTz) = (y.t.tz = NoTz)
     ELSE ValCmp(x, y) = "EQ"
 \* canonical representation; HasCanon says for which built-ins this module defines it
-HasCanon(b) == BT[b].p \in {"decimal", "boolean", "hexBinary"} \/ b \in {"dateTime", "time"}
+HasCanon(b) == BT[b].p \in {"decimal", "boolean", "hexBinary"} \/ b \in {"dateTime", "time", "date"}
 CanonOp(ty, raw) ==
     LET x == ValOf(ty, raw) d == BT[ty.b] IN
     CASE d.p = "decimal" -> IF d.lx = "integer" THEN IntCanon(x.n) ELSE DecCanon(x.n)
@@ -570,7 +580,11 @@ DtBad == {"2001-02-29T00:00:00", "1900-02-29T00:00:00", "2000-02-30T00:00:00", "
           "2000-1-01T00:00:00", "2000-01-01", "2000-01-01T00:00", "2000-01-01T00:00:00.", "2000-01-01T00:00:00z", "2000-01-01T00:00:00+1:00", "2000-01-01 00:00:00",
           "2000-01-01T00:00:00ZZ", "2000-01-01T00:00:00+01:00Z", "+2000-01-01T00:00:00", "2000-01-01T0:00:00", ""}
 DateGrid == {"2000-01-01", "2000-01-01Z", "2000-02-29", "2004-02-29+14:00", "2000-03-01-14:00", "1999-12-31", "2000-01-01+14:00", "2000-01-01-14:00", "2000-01-02", "2000-01-01+00:00",
-             "1999-12-31Z", "2000-01-02Z", "-0001-01-01", "12000-01-01", "2000-12-31-01:00", "2000-01-01+01:00"}
+             "1999-12-31Z", "2000-01-02Z", "-0001-01-01", "12000-01-01", "2000-12-31-01:00", "2000-01-01+01:00",
+             \* month ends, year ends, leap days around the 12:00 boundary of the recoverable time zone
+             "2003-11-30-13:00", "2003-12-01+01:00", "2003-11-30-12:00", "2003-11-30-11:59", "2003-11-30+12:00", "2003-11-30+12:01", "2003-12-31-12:00",
+             "2003-12-31-14:00", "2004-01-01+14:00", "2004-01-01+12:01", "2004-02-29-12:00", "2004-02-28-13:00", "2004-03-01+13:00", "2003-10-31-12:30",
+             "2000-01-01-00:01", "2000-01-01+00:01", "2003-02-28-12:00", "-0045-06-15"}
 DateBad == {"2001-02-29", "2100-02-29", "2000-02-30", "2000-06-31", "2000-13-01", "0000-01-01", "2000-01-01T00:00:00", "2000-1-1", "00-01-01", "2000-01-01+14:01", "2000-01-01+", "2000/01/01", "2000-01-011", ""}
 TimeGrid == {"00:00:00", "24:00:00", "00:00:00Z", "24:00:00Z", "12:00:00", "12:00:00.000", "12:00:00.5", "12:00:00.50", "23:59:59", "00:00:00+14:00", "00:00:00-14:00", "12:00:00+01:00",
              "11:00:00Z", "13:00:00", "02:00:00", "22:00:00", "23:30:00-01:00", "00:30:00+01:00"}
@@ -742,4 +756,6 @@ InvCanon == last.f = "canonical" =>
             /\ SameValue(bt, c, last.a)
             /\ CanonOp(bt, c) = c
             /\ \A i \in 1..Len(c) : ~IsWs(c[i])
+            /\ (t.b = "date" /\ ValOf(bt, c).t.tz # NoTz => ValOf(bt, c).t.tz \in (-719)..720)     \* recoverable time zone
+            /\ (t.b = "date" => (ValOf(bt, c).t.tz = NoTz) = (ValOf(t, last.a).t.tz = NoTz))
 =============================================================================
